@@ -39,6 +39,12 @@ func (e *Env) checkFileClient() {
 		doc[n] = map[string]any{"secret": sec}
 		wants[n] = want{act, b}
 	}
+	// entries without a usable version are not secrets the file client can
+	// serve with the conditional-get contract: either they are ignored
+	// (not found) or, if served at all, V = 0 must still yield the value
+	zeroNames := []string{"zero-version", "no-version"}
+	doc["zero-version"] = map[string]any{"secret": map[string]any{"Value": base64.StdEncoding.EncodeToString([]byte("zv")), "Version": 0}}
+	doc["no-version"] = map[string]any{"secret": map[string]any{"TextValue": "nv"}}
 	data, _ := json.Marshal(doc)
 	path := filepath.Join(e.Dir, "static-secrets.json")
 	if err := os.WriteFile(path, data, 0o600); err != nil {
@@ -51,6 +57,16 @@ func (e *Env) checkFileClient() {
 		return
 	}
 	ctx := context.Background()
+	for _, n := range zeroNames {
+		sv, err := fc.GetIfChanged(ctx, n, 0)
+		if errors.Is(err, api.ErrValueNotChanged) {
+			e.fail("fileclient", "FileClient.GetIfChanged(%q, 0) answered not-changed: with V = 0 the flag is ignored and a value (or not-found) is due", n)
+		} else if err != nil && !errors.Is(err, api.ErrNotFound) {
+			e.fail("fileclient", "FileClient.GetIfChanged(%q, 0): %v", n, err)
+		} else if err == nil && len(sv.Value) == 0 {
+			e.fail("fileclient", "FileClient.GetIfChanged(%q, 0) returned an empty value", n)
+		}
+	}
 	for _, n := range append(append([]string{}, e.Names...), "absent-name") {
 		w, has := wants[n]
 		sv, err := fc.Get(ctx, n)
